@@ -371,6 +371,41 @@ pub fn run_c11(ctx: &Ctx) -> Report {
             }
         }
     }
+    // G6: the status the gating consults is itself kept by the send path - a CONNACK that refuses the connection (any
+    // failure code of either version) ends it, so what follows is gated like the disconnected state (and a CONNACK
+    // that accepts makes it connected). One cell per reason-code byte the builder accepts.
+    for (role, as_client) in [(Role::Server, false), (Role::Any, false)] {
+        for lver in [LVer::V311, LVer::V5, LVer::Undetermined] {
+            for idw in [2usize, 4] {
+                for ver in [Ver::V311, Ver::V5] {
+                    for code in 0u8..=255 {
+                        for persistent in [false, true] {
+                            let Some((mut c, log)) = build_state(role, idw, lver, as_client, Status::Cg, persistent, false) else { continue };
+                            let p = Pkt::Connack { ver, sp: false, code, props: vec![] };
+                            let Ok(SendOutcome::Events(evs)) = c.send(&p, Via::Dynamic) else { continue };
+                            if evs.iter().any(|e| e.is_error()) || !evs.iter().any(|e| matches!(e, Ev::Send { pkt: Pkt::Connack { .. }, .. })) {
+                                continue; // (not passed on: a CONNACK of the other version - judged by G1)
+                            }
+                            rep.evaluations += 1;
+                            let name = format!("role={:?}/server-path conn={:?} idw={} persistent={} after CONNACK {:?} code=0x{:02x}", role, lver, idw, persistent, ver, code);
+                            rep.distinct_case(name.as_bytes());
+                            for (k, qos) in [(Kind::Publish, 0u8), (Kind::Pingresp, 0), (Kind::Suback, 0)] {
+                                let q = packet_for(k, ver, qos, 1);
+                                let Ok(SendOutcome::Events(e2)) = c.send(&q, Via::Dynamic) else { continue };
+                                rep.hit("G6-refusing-connack-ends-the-connection");
+                                let passed = e2.iter().any(|e| matches!(e, Ev::Send { .. }));
+                                let want_pass = code == 0;
+                                if passed != want_pass {
+                                    rep.violate(fail("C11", "G6-refusing-connack-ends-the-connection", format!("ver={:?};code_class={};kind={:?};passed={}", ver, if code == 0 { "success" } else { "failure" }, k, passed), format!("{}: send({}) afterwards: {}", name, q.short(), evs_short(&e2)), json!({"cell": name, "prefix": log, "connack_events": evs_short(&evs), "events": evs_short(&e2)})));
+                                    break;
+                                }
+                            }
+                        }
+                    }
+                }
+            }
+        }
+    }
     // compile-time table
     for role in [Role::Client, Role::Server, Role::Any] {
         for idw in [2usize, 4] {
@@ -389,7 +424,7 @@ pub fn run_c11(ctx: &Ctx) -> Report {
     }
     rep.assumptions.push("reference gating table = DESIGN Appendix A (who may send what, in which version and status; a QoS>0 PUBLISH / PUBREL outside the connected state may be queued or refused but never reaches the transport)".into());
     if ctx.replay.is_none() {
-        rep.require_hits(&[("G1-outcome-equals-gating-table", 10_000), ("G3-refused-call-leaves-no-trace", 5_000), ("G4-compile-time-table-equals-role-table", 100)]);
+        rep.require_hits(&[("G1-outcome-equals-gating-table", 10_000), ("G3-refused-call-leaves-no-trace", 5_000), ("G4-compile-time-table-equals-role-table", 100), ("G6-refusing-connack-ends-the-connection", 300)]);
     }
     rep
 }
@@ -620,7 +655,9 @@ pub fn run_c17(ctx: &Ctx) -> Report {
                                 rep.hit(rule);
                                 let has_err = evs.iter().any(|e| e.is_error());
                                 let delivered = evs.iter().any(|e| matches!(e, Ev::Recv { .. }));
-                                let responded = forbidden && evs.iter().any(|e| matches!(e, Ev::Send { .. }));
+                                // (a second CONNECT, however malformed, is never answered like a first one: no CONNACK on an
+                                // established connection - MQTT-3.2.0-2)
+                                let responded = (forbidden && evs.iter().any(|e| matches!(e, Ev::Send { .. }))) || evs.iter().any(|e| matches!(e, Ev::Send { pkt: Pkt::Connack { .. }, .. }));
                                 let after = session_view(&mut c);
                                 let dafter = c.digest();
                                 // "reported as a protocol error": the error kind, and what the library tells the peer about it
@@ -678,10 +715,28 @@ pub fn run_c17(ctx: &Ctx) -> Report {
                         }
                     }
                 }
-                for v in variants {
+                // (frames: every well-formed variant, plus - server path - second CONNECTs the codec refuses: they are
+                // still a CONNECT on an established connection, so an error, no delivery, no CONNACK, session untouched;
+                // which error kind names it is left open for those)
+                let mut frames: Vec<(Pkt, Vec<u8>, Option<&'static str>)> = variants.into_iter().map(|v| { let f = rc::encode(&v, idw); (v, f, None) }).collect();
+                if !as_client {
+                    let base = connect_pkt(ver, false);
+                    let good = rc::encode(&base, idw);
+                    let mut reserved = good.clone();
+                    reserved[9] |= 1;
+                    let mut name_bad = good.clone();
+                    name_bad[4] = b'X';
+                    let cut = vec![0x10, 5, 0, 4, b'M', b'Q', b'T'];
+                    let mut short_id = good.clone();
+                    let l = short_id.len();
+                    short_id[l - 2] = 0xff;
+                    for (f, what) in [(reserved, "reserved-flag"), (name_bad, "protocol-name"), (cut, "cut-body"), (short_id, "client-id-length")] {
+                        frames.push((base.clone(), f, Some(what)));
+                    }
+                }
+                for (v, frame, malformed) in frames {
                     let Some((mut c, log)) = primed(role, idw, ver, as_client, Status::Cd) else { continue };
-                    let frame = rc::encode(&v, idw);
-                    let name = format!("role={:?}/{} ver={:?} status=Cd second handshake packet {} idw={}", role, if as_client { "client-path" } else { "server-path" }, ver, v.short(), idw);
+                    let name = format!("role={:?}/{} ver={:?} status=Cd second handshake packet {}{} idw={}", role, if as_client { "client-path" } else { "server-path" }, ver, v.short(), malformed.map(|m| format!(" malformed({})", m)).unwrap_or_default(), idw);
                     rep.evaluations += 1;
                     rep.distinct_case(name.as_bytes());
                     let before = session_view(&mut c);
@@ -702,8 +757,10 @@ pub fn run_c17(ctx: &Ctx) -> Report {
                         Pkt::Connack { code, .. } => if *code == 0 { "success" } else { "failure" },
                         _ => "connect",
                     };
-                    let wrong_kind = evs.iter().any(|e| matches!(e, Ev::Error(k) if k != "ProtocolError"));
-                    let wrong_code = evs.iter().find_map(|e| if let Ev::Send { pkt: Pkt::Disconnect { code, .. }, .. } = e { Some(*code) } else { None }).filter(|c| *c != Some(0x82));
+                    let wrong_kind = malformed.is_none() && evs.iter().any(|e| matches!(e, Ev::Error(k) if k != "ProtocolError"));
+                    let wrong_code = evs.iter().find_map(|e| if let Ev::Send { pkt: Pkt::Disconnect { code, .. }, .. } = e { Some(*code) } else { None }).filter(|c| malformed.is_none() && *c != Some(0x82));
+                    let code_class = if malformed.is_some() { "malformed-connect" } else { code_class };
+                    let delivered = delivered || evs.iter().any(|e| matches!(e, Ev::Send { pkt: Pkt::Connack { .. }, .. }));
                     if !has_err || delivered {
                         rep.violate(fail("C17", rule, format!("role={:?};ver={:?};variant={};err={};delivered={}", role, ver, code_class, has_err, delivered), format!("{}: events {}", name, evs_short(&evs)), witness));
                     } else if wrong_kind || wrong_code.is_some() {
